@@ -101,7 +101,7 @@ theorem ckey_congr {w w' : World} {c : Nat} (hc : w'.cn c = w.cn c)
 
 theorem ConInv.frame {w w' : World} (h : ConInv w) (hl : w'.connectionlist = w.connectionlist)
     (hd : w'.connection = w.connection) (hlen : w.cons.length ≤ w'.cons.length)
-    (hb : ∀ b, b ∈ w.blocklist → b ∈ w'.blocklist)
+    (hb : ∀ c ∈ w.connectionlist, (w.cn c).b0 ∈ w'.blocklist ∧ (w.cn c).b1 ∈ w'.blocklist)
     (hc : ∀ c ∈ w.connectionlist, w'.cn c = w.cn c)
     (hn : ∀ b ∈ w.blocklist, w'.bname b = w.bname b) : ConInv w' := by
   have hk : ∀ c ∈ w.connectionlist, w'.ckey c = w.ckey c := fun c hcl =>
@@ -113,7 +113,7 @@ theorem ConInv.frame {w w' : World} (h : ConInv w) (hl : w'.connectionlist = w.c
   · intro r hr; rw [hl] at hr; rw [hd, hk r hr]; exact h.cd_complete r hr
   · intro c hcl; rw [hl] at hcl; rw [hc c hcl]
     have := h.c_ends c hcl
-    exact ⟨hb _ this.1, hb _ this.2.1, this.2.2⟩
+    exact ⟨(hb c hcl).1, (hb c hcl).2, this.2.2⟩
 
 theorem RockLink.frame {w w' : World} (h : RockLink w) (hl : w'.blocklist = w.blocklist)
     (hr : ∀ r, r ∈ w.rocktypelist → r ∈ w'.rocktypelist)
@@ -130,6 +130,26 @@ theorem ConnLink.frame {w w' : World} (h : ConnLink w) (hci : ConInv w) (hl : w'
   refine ⟨?_, ?_⟩
   · intro b hb; rw [hl] at hb; rw [hk b hb]; exact h.conn_nodup b hb
   · intro b hb k; rw [hl] at hb; rw [hk b hb, h.conn_iff b hb k, hcl]
+    constructor
+    · rintro ⟨c, hc', e, hb'⟩; exact ⟨c, hc', by rw [hkey c hc']; exact e, by rw [hc c hc']; exact hb'⟩
+    · rintro ⟨c, hc', e, hb'⟩; exact ⟨c, hc', by rw [← hkey c hc']; exact e, by rw [← hc c hc']; exact hb'⟩
+
+/-- versions for a block list that shrinks -/
+theorem RockLink.frame_sub {w w' : World} (h : RockLink w) (hl : ∀ b ∈ w'.blocklist, b ∈ w.blocklist)
+    (hr : ∀ r, r ∈ w.rocktypelist → r ∈ w'.rocktypelist)
+    (hk : ∀ b ∈ w.blocklist, (w'.bk b).rock = (w.bk b).rock) : RockLink w' := by
+  intro b hb; have hb' := hl b hb; rw [hk b hb']; exact hr _ (h b hb')
+
+theorem ConnLink.frame_sub {w w' : World} (h : ConnLink w) (hci : ConInv w) (hl : ∀ b ∈ w'.blocklist, b ∈ w.blocklist)
+    (hcl : w'.connectionlist = w.connectionlist)
+    (hc : ∀ c ∈ w.connectionlist, w'.cn c = w.cn c)
+    (hn : ∀ b ∈ w.blocklist, w'.bname b = w.bname b)
+    (hk : ∀ b ∈ w.blocklist, (w'.bk b).conn = (w.bk b).conn) : ConnLink w' := by
+  have hkey : ∀ c ∈ w.connectionlist, w'.ckey c = w.ckey c := fun c hc' =>
+    ckey_congr (hc c hc') (hn _ (hci.c_ends c hc').1) (hn _ (hci.c_ends c hc').2.1)
+  refine ⟨?_, ?_⟩
+  · intro b hb; have hb' := hl b hb; rw [hk b hb']; exact h.conn_nodup b hb'
+  · intro b hb k; have hb' := hl b hb; rw [hk b hb', h.conn_iff b hb' k, hcl]
     constructor
     · rintro ⟨c, hc', e, hb'⟩; exact ⟨c, hc', by rw [hkey c hc']; exact e, by rw [hc c hc']; exact hb'⟩
     · rintro ⟨c, hc', e, hb'⟩; exact ⟨c, hc', by rw [← hkey c hc']; exact e, by rw [← hc c hc']; exact hb'⟩
